@@ -79,24 +79,32 @@ Definition body_ok (b : text) : bool :=
   match b, rev b with c :: _, d :: _ => (c =? 60) && (d =? 62) | _, _ => false end.
 
 (** * version-2 file layouts *)
+(** the XML declaration: each of the three pseudo-attributes present (with its own quote, 34 or 39) or absent *)
 Record lay2 := Lay2 {
   m_lines : list text;           (* leading blank lines *)
-  m_quote : N;                   (* quote of the XML declaration: 34 or 39 *)
+  m_ver : option N;              (* quote of version="1.0", None = attribute absent *)
+  m_enc : option N;              (* quote of encoding="UTF-8" *)
+  m_sa : option N;               (* quote of standalone="no" *)
   m_a : text;                    (* between the XML declaration and the OFX declaration *)
   m_b : text                     (* between the OFX declaration and the body *)
 }.
-Definition xml_decl_q (q : N) : text :=
-  T "<?xml version=" ++ q :: T "1.0" ++ q :: T " encoding=" ++ q :: T "UTF-8" ++ q :: T " standalone=" ++ q :: T "no" ++ q :: T "?>".
+Definition xml_part (name val : text) (q : option N) : text :=
+  match q with Some c => 32 :: name ++ 61 :: c :: val ++ [c] | None => [] end.
+Definition xml_decl_gen (v e s : option N) : text :=
+  T "<?xml" ++ xml_part (T "version") (T "1.0") v ++ xml_part (T "encoding") (T "UTF-8") e ++ xml_part (T "standalone") (T "no") s
+  ++ (match v, e, s with None, None, None => [32] | _, _, _ => [] end) ++ T "?>".
+Definition xml_decl_q (q : N) : text := xml_decl_gen (Some q) (Some q) (Some q).
 Definition ofx_decl (h : hdr2) : text :=
   T "<?OFX OFXHEADER=""" ++ dec_of_Z (h2_ofxheader h) ++ T """ VERSION=""" ++ dec_of_Z (h2_version h) ++
   T """ SECURITY=""" ++ h2_security h ++ T """ OLDFILEUID=""" ++ h2_old h ++ T """ NEWFILEUID=""" ++ h2_new h ++ T """?>".
 Definition head2 (l : lay2) (h : hdr2) : text :=
-  lead_text (m_lines l) ++ xml_decl_q (m_quote l) ++ m_a l ++ ofx_decl h ++ m_b l.
+  lead_text (m_lines l) ++ xml_decl_gen (m_ver l) (m_enc l) (m_sa l) ++ m_a l ++ ofx_decl h ++ m_b l.
 Definition file2 (l : lay2) (h : hdr2) (encbody : text) : text := head2 l h ++ encbody.
+Definition quote_ok (o : option N) : bool := match o with Some c => (c =? 34) || (c =? 39) | None => true end.
 Definition lay2_ok (l : lay2) : bool :=
   (List.length (m_lines l) <=? 7)%nat && forallb all_blank (m_lines l)
-  && ((m_quote l =? 34) || (m_quote l =? 39)) && all_ws (m_a l) && all_ws (m_b l).
-Definition lay2_str : lay2 := Lay2 [] 34 CRLF CRLF.
+  && quote_ok (m_ver l) && quote_ok (m_enc l) && quote_ok (m_sa l) && all_ws (m_a l) && all_ws (m_b l).
+Definition lay2_str : lay2 := Lay2 [] (Some 34) (Some 34) (Some 34) CRLF CRLF.
 
 (** * header texts built from an arbitrary list of (NAME, value) lines: corruption, omission, transposition *)
 Definition names9 : list text :=
